@@ -897,6 +897,36 @@ theorem resolveRef_idem {root : List Str} {r p : Str} (hroot : RootOk root)
           simpa using this
         · cases h
 
+/-- a reference that begins with `#` raises in the model (the lookup in the empty id table) exactly when it is
+an id reference in the sense of `isIdRef` -/
+theorem resolveRef_hash_raised_iff (root : List Str) (t : Str) :
+    resolveRef root ('#' :: t) = .raised ↔ isIdRef ('#' :: t) = true := by
+  unfold resolveRef
+  cases t with
+  | nil => simp [isIdRef]
+  | cons c u =>
+    have hne : ('#' :: c :: u : Str) ≠ ['#'] := by simp
+    by_cases hc : c = '/'
+    · subst hc
+      by_cases hu : isUrl (joinWith ['/'] root) = true <;> simp [isIdRef, hu]
+    · simp [isIdRef, hc]
+
+/-- a reference that does not begin with `#` is never an id reference -/
+theorem isIdRef_head {r : Str} (h : isIdRef r = true) : r.head? = some '#' := by
+  cases r with
+  | nil => simp [isIdRef] at h
+  | cons c t =>
+    cases t with
+    | nil => simp [isIdRef] at h
+    | cons d u =>
+      by_cases hc : c = '#'
+      · simp [hc]
+      · exfalso
+        unfold isIdRef at h
+        split at h
+        · next heq => simp only [List.cons.injEq] at heq; exact hc heq.1
+        · cases h
+
 /-! ### the per-module rename pass -/
 
 /-- adding under a path that is not registered yet: a fresh entry is appended -/
